@@ -298,7 +298,11 @@ Qed.
 Lemma ref_ok_mono rt ks kg x : incl_b ks kg = true -> ref_ok rt ks x = true -> ref_ok rt kg x = true.
 Proof.
   intros H. unfold ref_ok. rewrite !orb_true_iff, !andb_true_iff.
-  intros [[[H1 H2]|[H1 H2]]|[H1 H2]]; pose proof (incl_b_mems _ _ H) as Hm; auto.
+  pose proof (incl_b_mems _ _ H) as Hm.
+  intros [[[H1 H2]|[H1 H2]]|[[H1 H2] H3]].
+  - left. left. split; [apply Hm; exact H1 | exact H2].
+  - left. right. split; [apply Hm; exact H1 | exact H2].
+  - right. split; [split; [exact H1 | apply Hm; exact H2] | exact H3].
 Qed.
 
 Theorem interp_mono ES EG fe :
